@@ -7,6 +7,9 @@
      open     kind rcv snd        one ConnOpener.Open: link kind and the conn.Config it was given
      factory  batch rcv snd       one call of a provider factory registered with router.AddUnderlay
                                   (signature NewProviderFn(batchSize, receiveBufferSize, sendBufferSize))
+     sock     kind rcv snd        (real-socket traces: the router was built WITHOUT a test opener, conn.New
+                                  opened loopback UDP sockets) SO_RCVBUF / SO_SNDBUF read back from the kernel;
+                                  the reset record carries the system maxima rmax / wmax
      builderr err                 configuration failed (drift: no property statement about it)
 
    Monitor: every open and every factory call carries (receive, send) exactly as configured.
@@ -19,18 +22,24 @@ VARIABLES cfg, l, nopen
 vars == <<cfg, l, nopen>>
 R == Trace[l]
 
-Init == cfg = [rcv |-> 0, snd |-> 0, batch |-> 0] /\ l = 1 /\ nopen = 0
+Init == cfg = [rcv |-> 0, snd |-> 0, batch |-> 0, rmax |-> 0, wmax |-> 0] /\ l = 1 /\ nopen = 0
 
 Bad(key) == PrintT(<<"VERIF-BAD", l, key>>)
 Drift(key) == PrintT(<<"VERIF-DRIFT", l, key>>)
 
 Step == /\ l <= Len(Trace)
         /\ l' = l + 1
-        /\ CASE R.ev = "reset" -> cfg' = [rcv |-> R.rcv, snd |-> R.snd, batch |-> R.batch] /\ UNCHANGED nopen
+        /\ CASE R.ev = "reset" -> cfg' = [rcv |-> R.rcv, snd |-> R.snd, batch |-> R.batch, rmax |-> R.rmax, wmax |-> R.wmax]
+                                   /\ UNCHANGED nopen
              [] R.ev = "open" ->
                   /\ UNCHANGED cfg /\ nopen' = nopen + 1
                   /\ IF ConnOK(cfg, [rcv |-> R.rcv, snd |-> R.snd]) THEN TRUE
                      ELSE Bad("open:" \o R.kind \o ":" \o ConnWhy(cfg, [rcv |-> R.rcv, snd |-> R.snd]))
+             [] R.ev = "sock" ->
+                  /\ UNCHANGED cfg /\ nopen' = nopen + 1
+                  /\ IF R.kind = "unknown" THEN Bad("sock:unidentified-socket")
+                     ELSE IF SockOK(cfg.rcv, R.rcv, cfg.rmax) /\ SockOK(cfg.snd, R.snd, cfg.wmax) THEN TRUE
+                     ELSE Bad("sock:" \o R.kind \o ":" \o SockWhy(cfg, [rcv |-> R.rcv, snd |-> R.snd], cfg.rmax, cfg.wmax))
              [] R.ev = "factory" ->
                   /\ UNCHANGED <<cfg, nopen>>
                   /\ IF ~ConnOK(cfg, [rcv |-> R.rcv, snd |-> R.snd])
